@@ -1,5 +1,5 @@
 // gsextract — go/ast fact extractor: reads /repo's current sources and regenerates
-// lean/Gostatix/Generated/*.lean (lock table, decoder error table, Redis key patterns).
+// lean/Gostatix/Generated/*.lean (lock table, decoder error table, the Lua scripts as Lean terms: lua.go).
 package main
 
 import (
